@@ -15,6 +15,59 @@
 // *Statement or takes a function-typed parameter) or Other (printed text) otherwise.  Which
 // of the two it is gets re-decided by the Coq checker from the row's result and parameter
 // types, so the translator is not trusted with that choice.
+//
+// # Inlining of unexported helpers (TRUSTED: the Coq side never sees the helper)
+//
+// The table has rows for exported functions only, and the IR has no call of an unexported
+// one.  A call `h(a1, .., an)` or `r.h(a1, .., an)` of an unexported function or method h of
+// package jen is therefore replaced by h's body (translate.go helperCall, inline.go), and the
+// row shows what the exported function does with the helper's work spelled out.  The rule:
+//
+//  1. h is declared with a body in the files of package jen that are translated, is a
+//     concrete function or method (no interface method, no method promoted through an embedded
+//     field, no generic), has at most one result, unnamed, and its body is ITSELF in the IR:
+//     straight-line, `return` only as the last statement (calls of further helpers inside
+//     it are inlined in turn).  The receiver expression has exactly the receiver's type (no
+//     implicit & or *).  h must not be on the stack of helpers being inlined (recursion
+//     guard), at most 8 helpers deep, at most 200 expansions per exported function.
+//     Otherwise the row is Untranslatable and the reason names the helper and the call.
+//  2. The call becomes, in this order:  r' := r;  p1' := a1;  ..;  pn' := an;  <body of h>
+//     with h's receiver, parameters and locals renamed to names that are fresh in the row (the
+//     original name if it is free, else name_1, name_2, ..).  So the receiver and every
+//     argument is evaluated exactly once, left to right, before anything h does - as Go does.
+//     A variadic parameter is bound to the slice `xs` for `h(.., xs...)`, to nil for no
+//     variadic arguments, and to `[]Code{c1, .., ck}` for explicit ones (only for ...Code).
+//  3. The value of the call is the operand e of h's final return.  If the call is the whole
+//     right-hand side of `x := h(..)`, the whole operand of `return h(..)`, or a statement by
+//     itself, h's statements are put before that statement and e takes the place of the call
+//     (a statement `h(..)` whose e is a variable or constant disappears; otherwise e is still
+//     evaluated, into a local named ret_h).  If the call is NESTED in a larger expression
+//     (`*s = append(*s, newToken(..))`, `s.add(newToken(..))`), it is moved in front of the
+//     statement and its result named ret_h - allowed only when everything the statement
+//     evaluates before the call is an atom: a local (locals are never reassigned in the IR),
+//     a literal, a package constant, nil, or a field of a struct VALUE held in a local; inside a
+//     struct literal all the other fields must be atoms (Go evaluates them in source order, the
+//     IR in field order).  Otherwise Untranslatable.  Calls are expanded first in
+//     evaluation order first (operands before the operation, left to right).
+//  4. Afterwards the bindings of step 2, and `x := h(..)` where the value of the inlined call
+//     is an atom (x is then a second name for it) - only those; never another local the
+//     programmer wrote - are substituted away where that cannot change the computation
+//     (inline.go normalise):
+//     `p' := e` with e an atom: p' is replaced by e everywhere (if p' also occurs as `p'...`,
+//     `p'.f`, `*p' = append(*p', ..)`, `p'.items = append(..)` or is called: only when e is a
+//     local); `p' := e` with e a call or an allocation: only when p' occurs exactly once, as a
+//     plain operand of the NEXT statement, and everything that statement evaluates before it
+//     is an atom - e then runs at the same point of the execution as before.  A binding that
+//     cannot be removed stays as `SDefine p' e`, which has the same meaning.
+//
+// With 2-4 the row of `func (s *Statement) LitFunc(f) { return s.literal(literalToken, f()) }`
+// and `func (s *Statement) literal(typ, v) { t := token{typ: typ, content: v}; *s = append(*s, t);
+// return s }` is the row of the function written out by hand, and `f()` is one ECallParam,
+// before the append.  A helper that calls the callback twice, appends twice, appends to another
+// statement or stores the callback shows exactly that in the row (or is Untranslatable), and the
+// Coq checker judges it.  The inlined calls are listed in the generated file (inlined_calls).
+// newStatement() is ENewStatement only if its body is `return &Statement{}`; otherwise it is a
+// helper like any other.
 package main
 
 import (
@@ -33,7 +86,6 @@ import (
 	"path/filepath"
 	"runtime"
 	"sort"
-	"strconv"
 	"strings"
 )
 
@@ -110,341 +162,13 @@ func printNode(n interface{}) string {
 	return strings.Join(strings.Fields(b.String()), " ")
 }
 
-// ---------------------------------------------------------------- translation
-
-type trErr struct{ msg string }
-
-type translator struct {
-	info   *types.Info
-	pkg    *types.Package
-	locals map[string]bool // receiver, parameters, := locals of the function being translated
-	funcs  map[string]bool // names that are func-typed parameters
-}
-
-func (t *translator) fail(n ast.Node, format string, a ...interface{}) {
-	panic(trErr{fmt.Sprintf(format, a...) + " at " + pos(n)})
-}
-
-func isFuncType(ty types.Type) bool {
-	if ty == nil {
-		return false
-	}
-	_, ok := ty.Underlying().(*types.Signature)
-	return ok
-}
-
-// containsFunc: can a value of this type hold a function (directly, or in an element)?
-// Interface types are not followed (token.content is an interface{}: it holds whatever the
-// user gave to Lit and is never called; the renderer's type switch panics on a func).
-func containsFunc(ty types.Type, seen map[types.Type]bool) bool {
-	if ty == nil || seen[ty] {
-		return false
-	}
-	seen[ty] = true
-	switch u := ty.Underlying().(type) {
-	case *types.Signature:
-		return true
-	case *types.Pointer:
-		return containsFunc(u.Elem(), seen)
-	case *types.Slice:
-		return containsFunc(u.Elem(), seen)
-	case *types.Array:
-		return containsFunc(u.Elem(), seen)
-	case *types.Chan:
-		return containsFunc(u.Elem(), seen)
-	case *types.Map:
-		return containsFunc(u.Key(), seen) || containsFunc(u.Elem(), seen)
-	case *types.Struct:
-		// fields of struct types are reported where the struct is declared; an anonymous
-		// struct used as a field type is followed here
-		for i := 0; i < u.NumFields(); i++ {
-			if containsFunc(u.Field(i).Type(), seen) {
-				return true
-			}
-		}
-	}
-	return false
-}
-
-func (t *translator) args(call *ast.CallExpr) string {
-	var out []string
-	for i, a := range call.Args {
-		if call.Ellipsis.IsValid() && i == len(call.Args)-1 {
-			id, ok := a.(*ast.Ident)
-			if !ok || !t.locals[id.Name] {
-				t.fail(a, "spread of a non-variable")
-			}
-			out = append(out, "ESpread "+cstr(id.Name))
-			continue
-		}
-		out = append(out, t.expr(a))
-	}
-	return clist(out)
-}
-
-func (t *translator) keyed(cl *ast.CompositeLit, allowed []string) map[string]ast.Expr {
-	out := map[string]ast.Expr{}
-	for _, el := range cl.Elts {
-		kv, ok := el.(*ast.KeyValueExpr)
-		if !ok {
-			t.fail(el, "positional element in a struct literal")
-		}
-		k, ok := kv.Key.(*ast.Ident)
-		if !ok {
-			t.fail(el, "non-identifier key")
-		}
-		found := false
-		for _, a := range allowed {
-			if a == k.Name {
-				found = true
-			}
-		}
-		if !found {
-			t.fail(el, "unknown field %s", k.Name)
-		}
-		out[k.Name] = kv.Value
-	}
-	return out
-}
-
-func (t *translator) field(m map[string]ast.Expr, k, zero string) string {
-	if e, ok := m[k]; ok {
-		return "(" + t.expr(e) + ")"
-	}
-	return zero
-}
-
-func (t *translator) composite(cl *ast.CompositeLit, addr bool) string {
-	switch ty := cl.Type.(type) {
-	case *ast.Ident:
-		switch {
-		case ty.Name == "Group" && addr:
-			m := t.keyed(cl, []string{"name", "open", "close", "separator", "multi", "items"})
-			return fmt.Sprintf("EGroupLit %s %s %s %s %s %s",
-				t.field(m, "name", "(EStr [])"), t.field(m, "open", "(EStr [])"), t.field(m, "close", "(EStr [])"),
-				t.field(m, "separator", "(EStr [])"), t.field(m, "multi", "(EBool false)"), t.field(m, "items", "ENil"))
-		case ty.Name == "token" && !addr:
-			m := t.keyed(cl, []string{"typ", "content"})
-			return fmt.Sprintf("EToken %s %s", t.field(m, "typ", "(EStr [])"), t.field(m, "content", "ENil"))
-		case ty.Name == "comment" && !addr:
-			m := t.keyed(cl, []string{"comment"})
-			return "EComment " + t.field(m, "comment", "(EStr [])")
-		case ty.Name == "tag" && !addr:
-			m := t.keyed(cl, []string{"items"})
-			return "ETag " + t.field(m, "items", "ENil")
-		case ty.Name == "Dict" && !addr:
-			if len(cl.Elts) != 0 {
-				t.fail(cl, "non-empty Dict literal")
-			}
-			return "EDictLit"
-		case ty.Name == "Statement" && addr:
-			var es []string
-			for _, e := range cl.Elts {
-				if _, ok := e.(*ast.KeyValueExpr); ok {
-					t.fail(e, "keyed element in a Statement literal")
-				}
-				es = append(es, t.expr(e))
-			}
-			return "EStmtLit " + clist(es)
-		}
-	case *ast.ArrayType:
-		if id, ok := ty.Elt.(*ast.Ident); ok && id.Name == "Code" && ty.Len == nil && !addr {
-			var es []string
-			for _, e := range cl.Elts {
-				if _, ok := e.(*ast.KeyValueExpr); ok {
-					t.fail(e, "keyed element in a []Code literal")
-				}
-				es = append(es, t.expr(e))
-			}
-			return "ECodeList " + clist(es)
-		}
-	}
-	t.fail(cl, "composite literal %s outside the IR", printNode(cl.Type))
-	return ""
-}
-
-func (t *translator) expr(e ast.Expr) string {
-	switch x := e.(type) {
-	case *ast.ParenExpr:
-		return t.expr(x.X)
-	case *ast.Ident:
-		switch obj := t.info.Uses[x].(type) {
-		case *types.Nil:
-			return "ENil"
-		case *types.Const:
-			if obj.Parent() == types.Universe && (x.Name == "true" || x.Name == "false") {
-				return "EBool " + x.Name
-			}
-			if obj.Pkg() == t.pkg && obj.Parent() == t.pkg.Scope() {
-				return "EConst " + cstr(x.Name)
-			}
-		case *types.Var:
-			if t.locals[x.Name] && !obj.IsField() && obj.Parent() != t.pkg.Scope() {
-				return "EVar " + cstr(x.Name)
-			}
-		}
-		t.fail(x, "identifier %s is not a local, nil, bool or package constant", x.Name)
-	case *ast.BasicLit:
-		if x.Kind == token.STRING {
-			s, err := strconv.Unquote(x.Value)
-			if err == nil {
-				return "EStr " + cstr(s)
-			}
-		}
-		t.fail(x, "literal %s outside the IR", x.Value)
-	case *ast.SelectorExpr:
-		if id, ok := x.X.(*ast.Ident); ok && t.locals[id.Name] {
-			if sel := t.info.Selections[x]; sel != nil && sel.Kind() == types.FieldVal {
-				return "ESel " + cstr(id.Name) + " " + cstr(x.Sel.Name)
-			}
-		}
-		t.fail(x, "selector %s outside the IR", printNode(x))
-	case *ast.UnaryExpr:
-		if x.Op == token.AND {
-			if cl, ok := x.X.(*ast.CompositeLit); ok {
-				return t.composite(cl, true)
-			}
-		}
-		t.fail(x, "unary expression outside the IR")
-	case *ast.CompositeLit:
-		return t.composite(x, false)
-	case *ast.CallExpr:
-		switch fn := x.Fun.(type) {
-		case *ast.Ident:
-			switch obj := t.info.Uses[fn].(type) {
-			case *types.Func:
-				if obj.Pkg() == t.pkg && fn.Name == "newStatement" && len(x.Args) == 0 {
-					return "ENewStatement"
-				}
-				if obj.Pkg() == t.pkg && ast.IsExported(fn.Name) {
-					return "ECallFn " + cstr(fn.Name) + " " + t.args(x)
-				}
-				t.fail(x, "call of unexported function %s", fn.Name)
-			case *types.Var:
-				if t.funcs[fn.Name] && t.locals[fn.Name] {
-					return "ECallParam " + cstr(fn.Name) + " " + t.args(x)
-				}
-				t.fail(x, "call of a function value that is not a parameter")
-			}
-			t.fail(x, "call of %s outside the IR", fn.Name)
-		case *ast.SelectorExpr:
-			if sel := t.info.Selections[fn]; sel != nil {
-				if sel.Kind() == types.MethodVal && ast.IsExported(fn.Sel.Name) && sel.Obj().Pkg() == t.pkg {
-					return "ECallMeth (" + t.expr(fn.X) + ") " + cstr(fn.Sel.Name) + " " + t.args(x)
-				}
-				t.fail(x, "call through selector %s outside the IR", printNode(fn))
-			}
-			// qualified identifier pkg.F
-			if obj, ok := t.info.Uses[fn.Sel].(*types.Func); ok && obj.Pkg() != nil && obj.Pkg().Path() == "fmt" && fn.Sel.Name == "Sprintf" {
-				return "EPure " + cstr("fmt.Sprintf") + " " + t.args(x)
-			}
-			t.fail(x, "call of %s outside the IR", printNode(fn))
-		}
-		t.fail(x, "call outside the IR")
-	}
-	t.fail(e, "expression %T outside the IR", e)
-	return ""
-}
-
-func starOf(e ast.Expr) (string, bool) {
-	st, ok := e.(*ast.StarExpr)
-	if !ok {
-		return "", false
-	}
-	id, ok := st.X.(*ast.Ident)
-	if !ok {
-		return "", false
-	}
-	return id.Name, true
-}
-
-func (t *translator) stmt(s ast.Stmt) string {
-	switch x := s.(type) {
-	case *ast.AssignStmt:
-		if len(x.Lhs) != 1 || len(x.Rhs) != 1 {
-			t.fail(x, "multiple assignment")
-		}
-		if x.Tok == token.DEFINE {
-			id, ok := x.Lhs[0].(*ast.Ident)
-			if !ok || id.Name == "_" {
-				t.fail(x, "definition of a non-identifier")
-			}
-			if t.locals[id.Name] {
-				t.fail(x, "redefinition of %s", id.Name)
-			}
-			e := t.expr(x.Rhs[0])
-			t.locals[id.Name] = true
-			return "SDefine " + cstr(id.Name) + " (" + e + ")"
-		}
-		if x.Tok != token.ASSIGN {
-			t.fail(x, "assignment operator %s", x.Tok)
-		}
-		call, ok := x.Rhs[0].(*ast.CallExpr)
-		if !ok {
-			t.fail(x, "assignment of a non-append")
-		}
-		fn, ok := call.Fun.(*ast.Ident)
-		if !ok || fn.Name != "append" || len(call.Args) < 1 {
-			t.fail(x, "assignment of a non-append")
-		}
-		if _, ok := t.info.Uses[fn].(*types.Builtin); !ok {
-			t.fail(x, "append is not the builtin")
-		}
-		rest := &ast.CallExpr{Fun: call.Fun, Args: call.Args[1:], Ellipsis: call.Ellipsis}
-		// *s = append(*s, args...)
-		if l, ok := starOf(x.Lhs[0]); ok {
-			r, ok := starOf(call.Args[0])
-			if !ok || r != l || !t.locals[l] {
-				t.fail(x, "append to a different slice")
-			}
-			return "SAppendSelf " + cstr(l) + " " + t.args(rest)
-		}
-		// g.items = append(g.items, e)
-		if l, ok := x.Lhs[0].(*ast.SelectorExpr); ok {
-			r, ok2 := call.Args[0].(*ast.SelectorExpr)
-			li, ok3 := l.X.(*ast.Ident)
-			if !ok2 || !ok3 {
-				t.fail(x, "append to a field of a non-variable")
-			}
-			ri, ok4 := r.X.(*ast.Ident)
-			if !ok4 || ri.Name != li.Name || l.Sel.Name != "items" || r.Sel.Name != "items" || !t.locals[li.Name] {
-				t.fail(x, "append to a field other than items")
-			}
-			if len(call.Args) != 2 || call.Ellipsis.IsValid() {
-				t.fail(x, "append of other than one item")
-			}
-			return "SAppendItems " + cstr(li.Name) + " (" + t.expr(call.Args[1]) + ")"
-		}
-		t.fail(x, "assignment outside the IR")
-	case *ast.ExprStmt:
-		call, ok := x.X.(*ast.CallExpr)
-		if !ok {
-			t.fail(x, "expression statement")
-		}
-		fn, ok := call.Fun.(*ast.Ident)
-		if !ok || !t.funcs[fn.Name] || !t.locals[fn.Name] {
-			t.fail(x, "statement call of other than a function parameter")
-		}
-		if _, ok := t.info.Uses[fn].(*types.Var); !ok {
-			t.fail(x, "statement call of other than a function parameter")
-		}
-		return "SCallParam " + cstr(fn.Name) + " " + t.args(call)
-	case *ast.ReturnStmt:
-		if len(x.Results) != 1 {
-			t.fail(x, "return of other than one value")
-		}
-		return "SReturn (" + t.expr(x.Results[0]) + ")"
-	}
-	t.fail(s, "statement %T outside the IR", s)
-	return ""
-}
-
 type row struct {
 	recv, self, name, ret string
 	params                []string
 	body                  string
 	class                 string // for the statistics comment
 	fn                    *ast.FuncDecl
+	inlined               []string // the helper calls inlined into the body
 }
 
 func recvBase(fd *ast.FuncDecl) (base, self string) {
@@ -530,6 +254,18 @@ func main() {
 		return p.Name()
 	}
 
+	// every function and method declaration of the package, for the inliner
+	decls := map[*types.Func]*ast.FuncDecl{}
+	for _, f := range files {
+		for _, d := range f.Decls {
+			if fd, ok := d.(*ast.FuncDecl); ok {
+				if fn, ok := info.Defs[fd.Name].(*types.Func); ok {
+					decls[fn] = fd
+				}
+			}
+		}
+	}
+
 	// ---- rows
 	var rows []row
 	for _, f := range files {
@@ -543,7 +279,8 @@ func main() {
 				continue
 			}
 			r := row{recv: base, self: self, name: fd.Name.Name, fn: fd}
-			tr := &translator{info: info, pkg: pkg, locals: map[string]bool{}, funcs: map[string]bool{}}
+			ctx := &rowCtx{info: info, pkg: pkg, decls: decls, used: definedNames(fd)}
+			tr := &translator{ctx: ctx, info: info, pkg: pkg, locals: map[string]bool{}, funcs: map[string]bool{}}
 			if self != "" && self != "_" {
 				tr.locals[self] = true
 			}
@@ -614,13 +351,12 @@ func main() {
 						}
 					}
 				}()
+				body := normalise(ctx.expandBody(tr.body(fd.Body)))
 				var ss []string
-				for i, s := range fd.Body.List {
-					if _, ok := s.(*ast.ReturnStmt); ok && i != len(fd.Body.List)-1 {
-						tr.fail(s, "return before the end of the body")
-					}
-					ss = append(ss, tr.stmt(s))
+				for _, s := range body {
+					ss = append(ss, printStmt(s))
 				}
+				r.inlined = ctx.decisions
 				r.body = "Body " + clist(ss)
 				r.class = classify(fd, ss)
 			}()
@@ -726,8 +462,45 @@ func main() {
 		es = append(es, fmt.Sprintf("mkrow %s %s %s %s %s\n    (%s)", cstr(r.recv), cstr(r.self), cstr(r.name), clist(r.params), cstr(r.ret), r.body))
 	}
 	fmt.Fprintf(out, "Definition api_table : list api_row := [\n  %s\n].\n\n", strings.Join(es, ";\n  "))
+	var inl []string
+	for _, r := range rows {
+		if len(r.inlined) == 0 {
+			continue
+		}
+		var ds []string
+		for _, d := range r.inlined {
+			ds = append(ds, cstr(d))
+		}
+		n := r.name
+		if r.recv != "" {
+			n = r.recv + "." + r.name
+		}
+		inl = append(inl, fmt.Sprintf("(%s, %s)", cstr(n), clist(ds)))
+	}
+	fmt.Fprintf(out, "(* calls of unexported helpers that the translator replaced by the helper's body (the rule is in\n   the header of tools/cmd/api2ir/main.go), per row, in the order of expansion; informative *)\nDefinition inlined_calls : list (str * list str) := %s.\n\n", clist2(inl))
 	fmt.Fprintf(out, "(* struct fields (and Code implementations) that can hold a function: must be empty *)\nDefinition func_fields : list (str * str) := %s.\n\n", clist(funcFields))
 	fmt.Fprintf(out, "(* go / defer statements, escaping function literals, package variables that can hold a\n   function, in the non-test code: must be empty *)\nDefinition go_stmts : list (str * str) := %s.\n", clist(goStmts))
+}
+
+func clist2(elems []string) string {
+	if len(elems) == 0 {
+		return "[]"
+	}
+	return "[\n  " + strings.Join(elems, ";\n  ") + "\n]"
+}
+
+// definedNames: every identifier that occurs in the declaration (an over-approximation of
+// the names it declares), so that the names invented for an inlined helper's locals cannot
+// collide with the function's own.
+func definedNames(fd *ast.FuncDecl) map[string]bool {
+	used := map[string]bool{}
+	ast.Inspect(fd, func(n ast.Node) bool {
+		if id, ok := n.(*ast.Ident); ok {
+			used[id.Name] = true
+		}
+		return true
+	})
+	return used
 }
 
 func implementsCode(pkg *types.Package, ty types.Type) bool {
